@@ -253,8 +253,10 @@ def main(tier: str) -> int:
                          "dtype": "float"}] + pres
                 for si, shape in enumerate(shapes[N]):
                     for rep in range(2 if big else 1):
-                        for mi in ((1, 2, 3) if big else (2, 3)):
-                            if alg == "hosvd" and mi != 2 and not big:
+                        for mi in ((1, 2, 3) if (big or alg == "hosvd") else (2, 3)):
+                            # hosvd does not iterate; mi only selects the tolerance (mi = 1: 0.05, so that small eigenvalues
+                            # decide the ranks - under the scale presentations 1e-6 / 1e6 they are tiny / huge in absolute terms)
+                            if alg == "hosvd" and mi == 3 and not big:
                                 continue
                             q = {"shape": shape, "rank": 2, "dseed": sd + 3 * si + rep + mi, "maxiters": mi,
                                  "maxinner": [1, 3, 10][(mi + rep) % 3], "empty_slice": bool((mi + si) % 2 == 0 and alg.startswith("cp_apr")),
